@@ -55,6 +55,12 @@ class Engine:
                 return False
             if target.recv_is_self and frame.self_same:
                 return True
+            # a closure of the caller handed down through a static helper
+            # (`self._within(t, send_and_collect)` ... `step(*args)`)
+            if target.recv_is_self and target.func.parent is not None and \
+                    frame.parent is not None and frame.ctx.func.kind in (
+                        'staticmethod', 'classmethod'):
+                return True
             # static / class methods of the own class called through self
             f = call.func
             if frame.self_same and target.func.kind in (
